@@ -338,6 +338,18 @@ func suiteHostile(h *H) {
 		{dot, dirE("out", 0o755), fileE("out/created", "x", 0o644)},          // a directory entry named like an existing outside-pointing symlink
 		{dot, fileE("out", "x", 0o644)},
 		{dot, fileE("outfile", "replaced-through-link?", 0o644)},
+		// link targets that end in a slash: a link to a link that leaves the destination, then an entry below it
+		{dot, linkE("l", "abs/"), special("l/fifo", sIFIFO, 0)},
+		{dot, linkE("l", "out/"), special("l/fifo", sIFIFO, 0)},
+		{dot, linkE("absl", "ABSOUT"), linkE("l", "absl/"), special("l/sock", sIFSOCK, 0)},
+		{dot, linkE("l", "abs/"), fileE("l/created", "x", 0o644)},
+		{dot, linkE("l", "abs/"), dirE("l/newdir", 0o777)},
+		{dot, linkE("l", "abs/"), dirE("l", 0o700)},
+		{dot, linkE("l", "abs/."), special("l/fifo", sIFIFO, 0)},
+		{dot, linkE("l", "out//"), linkE("l/planted", "x")},
+		{dot, linkE("l", "abs/")},
+		{dot, linkE("l", "out/")},
+		{dot, dirE("d", 0o755), linkE("d/l", "../abs/"), special("d/l/fifo", sIFIFO, 0)},
 	} {
 		for _, args := range optSets[:2] {
 			cp := append([]hostileFile{}, es...)
